@@ -40,6 +40,13 @@ def evalTerm (W : World V) (D : VarId → List V) : Term V → Bnd V → List (B
       | some a => [(β, a)]
       | none => (evalTerm W D t β).flatMap fun p =>
           (W.items p.2).map fun e => ((id, e) :: p.1, e)
+  | .concat id t, β =>
+      -- Concatenate._evaluate__: exactly one output, the list of all inner elements in order
+      match β.lookup id with
+      | some a => [(β, a)]
+      | none =>
+          let all := W.mkList ((evalTerm W D t β).flatMap fun p => W.items p.2)
+          [((id, all) :: β, all)]
 
 /-- Evaluate a list of argument / selected expressions one after the other, each under the
     bindings made by the ones before it (`_bind_selected_variables_`,
